@@ -14,7 +14,8 @@ content `t` of the target, every order the datastore lists/streams the entries i
 * `export_import_crdt_empty_fails` — the crdt manager panics on an empty stream (K14a).
 Rotation: `rotate_spec` (every retention ≥ 1, every pre-existing folder set, every
 operation sequence, every observation window), `never_more_than_n`.
-Peerstore: `peerstore_roundtrip`, `bad_lines_skipped`.
+Peerstore: `peerstore_roundtrip`, `bad_lines_skipped_partial` (files without a line of 64 KiB or
+more; `bad_lines_skipped_full_fails`: known finding K14b).
 -/
 set_option linter.unusedSimpArgs false
 namespace CV.C14
@@ -184,20 +185,32 @@ theorem peerstore_roundtrip (i : PSInput) (P : List (Nat × List Nat)) (univ : L
 example : peerInfosAllowed { self := 0, known := [⟨1, some 5, [6, 1]⟩, ⟨2, none, [7, 5]⟩, ⟨3, some 5, []⟩], peers := [3, 1, 0, 2] }
     [(2, [5, 7]), (1, [1])] = true := by decide
 
+/-- unparsable lines are skipped, for every file -/
+def bad_lines_skipped_full : Prop := ∀ file : List Line, load file = file.filter Line.loads
+
 /-- `LoadPeerstore` returns exactly the lines that parse, in file order: a line that does not
-    (whether or not it starts with '/') changes nothing else and is never returned. -/
-theorem bad_lines_skipped (file : List Line) :
+    (whether or not it starts with '/') changes nothing else and is never returned — for every
+    file without a line of 64 KiB or more. -/
+theorem bad_lines_skipped_partial (file : List Line) (hl : ∀ l ∈ file, l ≠ Line.long) :
+    load file = file.filter Line.loads ∧
     (∀ l ∈ load file, l.loads = true) ∧
-    (∀ (a b : List Line) (bad : Line), bad.loads = false → load (a ++ bad :: b) = load a ++ load b) ∧
     (∀ self order, (fileClauses self file { loaded := (load file).map some, order := order, panic := false }).head? =
         some ("bad_lines_skipped", true)) := by
-  refine ⟨?_, ?_, ?_⟩
-  · intro l hl
-    exact (List.mem_filter.1 hl).2
-  · intro a b bad hb
-    simp [load, List.filter_append, List.filter_cons, hb]
+  have h := load_of_no_long hl
+  refine ⟨h, ?_, ?_⟩
+  · intro l hl'
+    rw [h] at hl'
+    exact (List.mem_filter.1 hl').2
   · intro self order
-    simp [fileClauses, load]
+    simp [fileClauses, h]
+
+/-- the code really violates the full statement: an over-long line ends the reading and the
+    valid address after it is lost (known finding K14b) -/
+theorem bad_lines_skipped_full_fails : ¬ bad_lines_skipped_full := by
+  intro h
+  have := h [.long, .full 0 1]
+  revert this
+  decide
 
 /-! ## Prop-level readings of the Bool checkers -/
 
